@@ -300,7 +300,7 @@ def res_sample_histories(ctx, num, thorough, stream=0):
     raw_suites = go_suites + [["RC", "EC", "EG"]]
 
     def epoch():
-        return {"key": rnd.choice([1, 1, 2]), "tickets": rnd.random() < 0.8, "cache": rnd.choice([0, 1, 1, 2]),
+        return {"key": rnd.choice([1, 1, 2, 3]), "tickets": rnd.random() < 0.8, "cache": rnd.choice([0, 1, 1, 2]),
                 "max": rnd.choice(sv_max), "suites": rnd.choice(sv_suites), "auth": rnd.choice(["none", "none", "request", "require"]),
                 "rule": rule(), "ca": rnd.choice([1, 1, 2])}
 
@@ -314,7 +314,7 @@ def res_sample_histories(ctx, num, thorough, stream=0):
         for k in range(rnd.randint(2, 4)):
             if have_conn and rnd.random() < 0.35 and steps[-1]["op"] != "epoch":
                 ne = dict(e)
-                for d in rnd.sample(["key", "tickets", "cache", "max", "suites", "auth", "rule", "rule", "ca", "ca"], rnd.choice([1, 1, 2])):
+                for d in rnd.sample(["key", "key", "tickets", "cache", "max", "suites", "auth", "rule", "rule", "ca", "ca"], rnd.choice([1, 1, 2])):
                     ne[d] = epoch()[d]
                 e = ne
                 steps.append({"op": "epoch", "sv": e})
@@ -494,11 +494,12 @@ def check_c44(ctx):
     ctx.tlc_must_pass("Tls", "TicketMC", "TicketMC.cfg", defines={"PRESET": "mc", "TIER": ctx.tier, "STEPS": steps},
                       timeout=3000, want_cases=False)
     hists = _gen_hist(ctx, "tamper", 2, "quick")
+    hists += _gen_hist(ctx, "rotate", 5, "quick")
     hists += _gen_hist(ctx, "policy", 3, ctx.tier)
     if not q:
         hists += _gen_hist(ctx, "config", 3, "quick")
     nsample = 1500 if q else 20000
-    ctx.cov["constants"]["TicketGen"] = {"presets": ["tamper", "policy"] + ([] if q else ["config"]) + ["file"], "sampled": nsample}
+    ctx.cov["constants"]["TicketGen"] = {"presets": ["tamper", "rotate", "policy"] + ([] if q else ["config"]) + ["file"], "sampled": nsample}
     hists += _gen_hist(ctx, "file", 8, ctx.tier, hist=res_sample_histories(ctx, nsample, not q))
     ctx.cov["exhaustive"] = False
     run_res(ctx, hists, "C44")
